@@ -208,7 +208,11 @@ def _condition(tp, w, c, name):
         g = torch.Generator().manual_seed(c["data_seed"])
         xt = torch.rand((n, 2), generator=g)
         inp = Points(xt, w.XT)
-        out = Points(_target(xt[:, :1], xt[:, 1:]), w.U)
+        tgt_ = _target(xt[:, :1], xt[:, 1:])
+        if c.get("inf_row") is not None:
+            tgt_ = tgt_.clone()
+            tgt_[int(c["inf_row"]) % n] = float("inf")      # a corrupted datum: that mini-batch has a non-finite gradient
+        out = Points(tgt_, w.U)
         dl = tp.utils.PointsDataLoader((inp, out), batch_size=c["batch"], shuffle=False)
         return tp.conditions.DataCondition(model, dl, norm=c["norm"], root=c.get("root", 1.0),
                                            use_full_dataset=c.get("full", False), name=name, weight=wt)
